@@ -77,6 +77,7 @@ pub fn step_oracle(r: &Run, rec: &StepRec) {
         "C04" => c04(r, rec),
         "C05" => c05(r, rec),
         "C06" => c06(r, rec),
+        "C11" => c11(r, rec),
         "C07" => c07(r, rec),
         _ => {}
     }
@@ -389,4 +390,90 @@ fn c07(r: &Run, rec: &StepRec) {
         pre.not(),
         format!("liquidate failed [{}] {}", kind, crate::sx::norm(&rec.tx.err)),
     );
+}
+
+// ------------------------------------------------------------------------------------------
+// C11: each position is charged (cumulative fraction - checkpoint) x size exactly when its owner
+// acts on it, and the checkpoint then moves to the current value
+// ------------------------------------------------------------------------------------------
+fn c11(r: &Run, rec: &StepRec) {
+    use crate::spec;
+    let d = r.w.d;
+    let what = &rec.what;
+    if !rec.tx.ok {
+        return;
+    }
+    let who = subject(&rec.op);
+    let cum = &rec.post.cum[r.vi];
+    let p0 = rec.obs.pos.as_ref();
+    let p1 = rec.post.pos[&(r.vi, who)].as_ref();
+    match &rec.op {
+        Op::Open { margin, lev, .. } => {
+            if let Some(p1) = p1 {
+                // (a flattened record of size zero accrues nothing; its checkpoint is set on the next open)
+                if !p1.size.value.is_zero() {
+                    prove_d("C11/checkpoint-moves-to-current-after-trade", si(&p1.last_updated_premium_fraction).eq(si(cum)), what.clone());
+                }
+            }
+            if let Some(p0) = p0 {
+                if p0.size.value.is_zero() {
+                    return;
+                }
+                let f = spec::funding_owed(p0, &rec.pre.cum[r.vi], d);
+                let swaps = rec.tx.msgs_to("vamm");
+                let same_side = p1.map(|p| p.direction == p0.direction).unwrap_or(false);
+                let first_is_input = swaps.first().map(|m| m.get("swap_input").is_some()).unwrap_or(false);
+                if swaps.len() == 1 && first_is_input && same_side && p1.map(|p| crate::sx::s(p.size.value).gt(crate::sx::s(p0.size.value))).map(|c| symrt::decide(c)).unwrap_or(false) {
+                    // increase: stored margin rises by the new margin minus the funding owed
+                    let n = s(*margin).mul(s(*lev)).div_e(c(d));
+                    let add = n.mul(c(d)).div_e(s(*lev));
+                    let p1 = p1.unwrap();
+                    let expect = s(p0.margin).add(add).sub(f);
+                    prove_d("C11/increase-charges-exactly-the-funding-owed", expect.ge(c(0)).implies(s(p1.margin).eq(expect)), what.clone());
+                } else if swaps.len() >= 1 && !first_is_input {
+                    // reversal (first leg closes the old position): the old position's funding is
+                    // part of what the trader gets back / pays in
+                    if let (Some(q), true) = (rec.obs.out_spot, r.w.token.is_some()) {
+                        let eq_old = spec::equity(p0, spec::pnl(p0, q), f);
+                        let new_margin = p1.map(|p| s(p.margin)).unwrap_or(c(0));
+                        let fees = match r.w.calc_fee(r.vi, Uint128::zero()) {
+                            _ => {
+                                let cfgv = r.w.vamm_config(r.vi);
+                                let n = s(*margin).mul(s(*lev)).div_e(c(d));
+                                n.mul(s(cfgv.toll_ratio)).div_e(c(d)).add(n.mul(s(cfgv.spread_ratio)).div_e(c(d)))
+                            }
+                        };
+                        prove_d(
+                            "C11/reversal-settles-the-old-positions-funding",
+                            eq_old.ge(c(0)).implies(delta(rec, who).eq(eq_old.sub(new_margin).sub(fees))),
+                            what.clone(),
+                        );
+                    }
+                }
+            }
+        }
+        Op::Withdraw { amount, .. } => {
+            if let (Some(p0), Some(p1)) = (p0, p1) {
+                let f = spec::funding_owed(p0, &rec.pre.cum[r.vi], d);
+                prove_d("C11/withdraw-charges-exactly-the-funding-owed", s(p0.margin).sub(s(p1.margin)).eq(s(*amount).add(f)), what.clone());
+                prove_d("C11/checkpoint-moves-to-current-after-withdraw", si(&p1.last_updated_premium_fraction).eq(si(cum)), what.clone());
+            }
+        }
+        Op::Close { .. } => {
+            if let Some(p1) = p1 {
+                prove_d("C11/checkpoint-moves-to-current-after-partial-close", si(&p1.last_updated_premium_fraction).eq(si(cum)), what.clone());
+            }
+        }
+        Op::Deposit { .. } => {
+            if let (Some(p0), Some(p1)) = (p0, p1) {
+                prove_d("C11/deposit-leaves-the-checkpoint", si(&p1.last_updated_premium_fraction).eq(si(&p0.last_updated_premium_fraction)), what.clone());
+            }
+        }
+        Op::Liquidate { .. } => {
+            if let (Some(p0), Some(p1)) = (p0, p1) {
+                prove_d("C11/partial-liquidation-leaves-the-checkpoint", si(&p1.last_updated_premium_fraction).eq(si(&p0.last_updated_premium_fraction)), what.clone());
+            }
+        }
+        Op::PayFunding { .. } => {}
+    }
 }
